@@ -489,9 +489,10 @@ namespace fixedmath
       {
       if( fixed_likely(y.v != 0) )
         {
-        fixed_t result { as_fixed( (x << 16).v / y.v ) };
-//         if( fixed_likely( check_division_result(result)) )
-          return result;
+        //dividend is shifted left by 16 bits, it must fit in remaining 47 bits + sign
+        constexpr fixed_internal dividend_limit { fixed_internal(1) << 47 };
+        if( fixed_likely( x.v < dividend_limit && x.v > -dividend_limit ) )
+          return as_fixed( (x << 16).v / y.v );
         }
       return quiet_NaN_result(); //abort ?
       }
@@ -526,9 +527,11 @@ namespace fixedmath
       {
       if( fixed_likely(rh != 0) )
         {
-        fixed_t const result = as_fixed( lh.v / promote_type_to_signed(rh) );
-//         if( fixed_likely( check_division_result(result)) )
-          return result;
+        //64bit unsigned divisor above signed range can not be promoted to signed type, quotient is always 0
+        if constexpr ( is_unsigned_v<integral_type> && sizeof(integral_type) == sizeof(fixed_internal) )
+          if( fixed_unlikely( rh > static_cast<integral_type>(std::numeric_limits<fixed_internal>::max()) ) )
+            return fixed_t{};
+        return as_fixed( lh.v / promote_type_to_signed(rh) );
         }
       return quiet_NaN_result(); //abort ?
       }
